@@ -595,7 +595,7 @@ pub fn run_c13(tier: &str, seed: u64, shard: usize, of: usize, only_job: Option<
     let mut distinct_cuts = 0u64;
     // choose (P, d) pairs whose full search is small enough to try every budget
     let max_full = if thorough { 12_000 } else { 4_000 };
-    let want_pairs = (if thorough { 700 } else { 64 } + of - 1) / of;
+    let want_pairs = (if thorough { 1_400 } else { 192 } + of - 1) / of;
     let mut order: Vec<usize> = (0..specs.len()).collect();
     for i in (1..order.len()).rev() {
         order.swap(i, rng.below(i as u64 + 1) as usize);
